@@ -119,9 +119,23 @@ pub fn selector_reuse(ctx: &mut Ctx, enc: &[u8], other: &[u8], text: &str, info:
                 Some((r, data, offsets, one.exists(d).ok(), one.predicate_match(d).ok()))
             };
             let (f_enc, f_other) = (fresh(enc)?, fresh(other)?);
-            let first = run(enc);
-            let second = run(other);
-            let again = run(enc);
+            // documents of equal length are presented in ONE buffer (same address, same
+            // length, other content), as a caller reading rows into a reused buffer does
+            let first;
+            let second;
+            let again;
+            if enc.len() == other.len() {
+                let mut row = enc.to_vec();
+                first = run(&row);
+                row.copy_from_slice(other);
+                second = run(&row);
+                row.copy_from_slice(enc);
+                again = run(&row);
+            } else {
+                first = run(enc);
+                second = run(other);
+                again = run(enc);
+            }
             Some(((f_enc.clone(), first), (f_other, second), (f_enc, again)))
         });
         match r {
